@@ -6,6 +6,6 @@ cd /repo || exit 2
 if ! git diff --quiet; then echo "repo dirty"; exit 2; fi
 git apply "$patch" || { echo "patch does not apply"; exit 2; }
 cd /verif && ./check "$prop" --tier "$tier" > /tmp/seedtest.out 2>&1; rc=$?
-cd /repo && git checkout -- . && git clean -fdq -- . >/dev/null 2>&1
+cd /repo && git apply -R "$patch" || git checkout -- .
 grep -E "^(VIOLATION|KNOWN|PASS|FAIL|MACHINERY)" /tmp/seedtest.out | head -6
 echo "rc=$rc"
